@@ -345,6 +345,30 @@ def witness_search(tier, seed):
         sf = SMSimfile.blank()
         if Assets(song, simfile=sf).banner is not None or Assets(song, simfile=sf).music is not None:
             return dict(input="directory without matching entries", detail="answer is not None")
+        # several kinds asked of ONE Assets object, in every order: the file a simfile names wins whatever was asked before
+        os.makedirs(os.path.join(song, "Art"))
+        for nme in ("Art/cover.png", "old banner.png", "some bg.png", "a.ogg"):
+            open(os.path.join(song, nme), "w").write("x")
+        sf = SMSimfile.blank()
+        for k in ("BANNER", "BACKGROUND", "CDTITLE", "JACKET", "CDIMAGE", "MUSIC"):
+            sf.pop(k, None)
+        sf["BANNER"] = "Art/Cover.PNG"
+        want = {"banner": "cover.png", "background": "some bg.png", "music": "a.ogg", "cdtitle": None}
+        import itertools as _it
+        for order in _it.permutations(list(want), 3):
+            a = Assets(song, simfile=sf)
+            for kd in order:
+                got = getattr(a, kd)
+                base = os.path.basename(got) if got else None
+                if base != want[kd]:
+                    for nme in ("Art/cover.png", "old banner.png", "some bg.png", "a.ogg"):
+                        os.remove(os.path.join(song, nme))
+                    os.rmdir(os.path.join(song, "Art"))
+                    return dict(input=dict(simfile_banner="Art/Cover.PNG", directory=["Art/cover.png", "old banner.png", "some bg.png", "a.ogg"], asked_in_order=list(order)),
+                                detail=f"{kd} = {got!r}, expected the entry {want[kd]!r}")
+        for nme in ("Art/cover.png", "old banner.png", "some bg.png", "a.ogg"):
+            os.remove(os.path.join(song, nme))
+        os.rmdir(os.path.join(song, "Art"))
         # extensions in truly mixed case
         for only, kd in (("Track.Ogg", "music"), ("Intro.Mp3", "music"), ("my banner.Png", "banner"), ("x-bg.JpEg", "background")):
             open(os.path.join(song, only), "w").write("x")
